@@ -46,9 +46,9 @@ def plan_C15(tier, seed):
         "rule": "case 0 enumerates every cell of (combinator x receiver case {Fallthrough,Res(Ok),Res(Err)} x closure "
                 "return case [x mutate]) for or_parse, or_always_parse, or_give_up, optional, matches, and_then, and_also, "
                 "and_do, map, map_err, err_into, From<Result> and ResultExt::{err_into,and_also,and_do}, plus the closure-taking "
-                "combinators once more with a zero-sized value type (); the whole table is instantiated for six shapes of the "
-                "value/error types (4-byte; odd-sized (u32,(u8,u16)); 136-byte and 328-byte arrays, i.e. Parsed larger than 128 "
-                "bytes; String and Box payloads with drop glue) - generic code can differ between instantiations only "
+                "combinators once more with a zero-sized value type (); the whole table is instantiated for several shapes of the "
+                "value/error types - eight - (4-byte; odd-sized (u32,(u8,u16)); 136-byte and 328-byte arrays, i.e. Parsed larger than 128 "
+                "bytes; String and Box payloads with drop glue; u128 and #[repr(align(64))] payloads, i.e. over-aligned) - generic code can differ between instantiations only "
                 "through such type intrinsics; payload integrity is part of the compared rendering; each cell compares "
                 "returned value (identity-tagged), closure invocation count and received argument with a table written from "
                 "the documentation. Cases k>=1 enumerate all token strings of length k-1 over {a,b,c,d,e,z} through a composed "
@@ -58,7 +58,7 @@ def plan_C15(tier, seed):
         "jobs": jobs,
         "primary_jobs": ["table-chk"],
         "eval_counters": ["cells", "grammar_strings"],
-        "floors": {"cells": 2 * 6 * 92, "shapes": 2 * 6, "distinct_nontrivial": 6 * 92},
+        "floors": {"cells": 2 * 8 * 92, "shapes": 2 * 8, "distinct_nontrivial": 8 * 92},
         "assumptions": ["the specification table in harness/src/c15.rs is written from the rustdoc of flussab::Parsed/ResultExt"],
     }
 
@@ -158,12 +158,15 @@ def plan_C02(tier, seed):
                         crash_is_violation=True, wall_limit=3000))
     return {
         "level": "exploration",
-        "rule": "random operation histories (50..600 ops drawn from request(n), request_byte, request_byte_at_offset(k), "
+        "rule": "random operation histories (50..600 ops drawn from request(n), request_byte, request_byte_at_offset(k) - n and k "
+                "now and then usize::MAX, usize::MAX-1, usize::MAX/2(+1), 2^62: the source is drained and the request falls "
+                "short -, "
                 "request_more, advance(n), advance_with_buf(n), unsafe advance_unchecked(n <= buf_len, its contract), set_mark, set_mark_to_position(p incl. near usize::MAX), "
                 "set_chunk_size(1..65536), check_io_error) on a bare DeferredReader built via from_read / from_boxed_dyn_read / "
                 "from_buf_reader(empty and partly consumed BufReader with capacities 2..200 and 4096..70000, the latter "
                 "holding more than one default chunk on long one-shot streams), over position-identifying zero-free streams of 0..1 MiB "
-                "delivered under one-shot, fixed-k, two-part, random and random+Interrupted schedules ending in EOF, early EOF "
+                "delivered under one-shot, fixed-k, two-part, random and random+Interrupted schedules (one history in ten with a "
+                "storm of 127..1000 consecutive Interrupted results) ending in EOF, early EOF "
                 "or a terminal error at a random offset. After EVERY operation: buf()==stream[cursor..delivered], buf_len, "
                 "buf_ptr, position()==cursor, mark()==absolute offset it was set to, is_complete/is_at_end/io_error exactly "
                 "as the source log says, short requests only after end/error, check_io_error reports once, and the read "
@@ -195,7 +198,7 @@ def plan_C11(tier, seed):
     return {
         "level": "exploration",
         "rule": "generated operation histories (5..300 ops: Write::write / write_all / write_all_defer_err of 0..3*capacity "
-                "bytes biased around capacity+-40, write::text::ascii_digits for all twelve integer types with boundary-heavy "
+                "bytes biased around capacity+-40 and now and then 4*capacity+-2, 8*capacity+-2, up to 12*capacity and 1 MiB,  write::text::ascii_digits for all twelve integer types with boundary-heavy "
                 "values, buf_write_ptr(n)+advance_unchecked(m<=n), flush, flush_defer_err, check_io_error, drop; plus boundary "
                 "pairs: fill the buffer so that exactly s in 0..45 bytes are spare, then write a maximal-length integer of a "
                 "random type / a slice of s-1..s+1 bytes / buf_write_ptr(s-1..s+1)) on a real "
@@ -290,7 +293,8 @@ def plan_C01(tier, seed):
     fl.update({"parser:log": 100, "pairs": q(tier, 3_000_000, 150_000_000), "nontrivial_pairs": q(tier, 1_000_000, 50_000_000),
                "ref_accepted": 10_000, "ref_syntax_error": 10_000, "interrupted_reads": 100_000,
                "ctor:new": 100_000, "ctor:from_read": 10_000, "ctor:from_boxed_dyn_read": 10_000, "ctor:from_buf_reader": 10_000,
-               "ctor:new_on_advanced_reader": 10_000, "aiger_runs_skipping_sections": 5_000,
+               "ctor:new_on_advanced_reader": 10_000, "ctor:new_on_reader_that_looked_ahead_to_the_end": 10_000,
+               "runs_with_an_interrupt_storm": 50_000, "aiger_runs_skipping_sections": 5_000,
                "distinct_nontrivial": q(tier, 1_000_000, 10_000_000)})
     return {
         "level": "exploration",
@@ -302,7 +306,9 @@ def plan_C01(tier, seed):
                 "chunk sizes 1,2,3,7,8,9,16,17,64,1024,16384; constructors new/from_read/from_boxed_dyn_read/from_buf_reader "
                 "with a prefilled BufReader (capacities 1..100 and 4096..70000, i.e. also holding more than one default "
                 "chunk), and Parser::new on a LineReader built from a reader that was already advanced over a 1..60 byte "
-                "preamble ('line 1 starts at the current position') - and, for a third of the inputs up to 256 bytes, two-part splits at EVERY offset. "
+                "preamble ('line 1 starts at the current position') or that had already looked ahead to the end of the "
+                "source; one run in eight has a storm of 64..70000 consecutive Interrupted results in front of one of its "
+                "first eight reads (possibly the one reporting the end) - and, for a third of the inputs up to 256 bytes, two-part splits at EVERY offset. "
                 "Compared: every returned item (canonical rendering) and End | Syntax(line,column) | Io; message text is "
                 "counted but not judged. A pair (input, schedule) is non-trivial if the schedule made >= 2 successful reads, a "
                 "read boundary fell strictly inside a token and the run returned an item or a located error; distinct by hash "
@@ -330,7 +336,9 @@ def plan_C04(tier, seed):
                 "repository-test inputs; all seven parsers, AIGER through both APIs) EVERY fault offset k in 0..=len is run "
                 "twice: the source delivers the first k bytes (1-byte reads with chunk 1; and one-shot / random+Interrupted / "
                 "fixed-k with another chunk size or - half of the inputs - through another constructor: from_read, "
-                "from_boxed_dyn_read, from_buf_reader with a prefilled BufReader, new on an advanced reader) and then fails "
+                "from_boxed_dyn_read, from_buf_reader with a prefilled BufReader, new on an advanced reader, new on a reader "
+                "that had already looked ahead to the end so that data and error are parked in it before parsing starts; "
+                "one run in eleven with 129..1000 consecutive Interrupted results first) and then fails "
                 "forever with an error whose ErrorKind is drawn per run from 19 non-Interrupted kinds (Other, BrokenPipe, "
                 "UnexpectedEof, WouldBlock, TimedOut, ConnectionReset, ..., AddrNotAvailable). Oracle: final result "
                 "never End; it is Io, or the fault-free run's Syntax(line,col) provided that run (1-byte reads, chunk 1, whose "
@@ -354,13 +362,16 @@ def plan_C05(tier, seed):
         jobs.append(Job("robust-asan", "asan", "c05", 4_000_000, {"max_size": 1000}, cpu_limit=60, crash_is_violation=True))
     fl = dict(PARSER_FLOORS)
     fl.update({"parser:log": 100, "inputs": q(tier, 3_000_000, 100_000_000), "accepted": 500_000, "syntax_errors": 500_000,
+               "giant_item_documents": 50, "giant_item_documents_accepted": 50,
                "class:hostile": 100_000, "distinct_keys": 250, "distinct_nontrivial": q(tier, 1_000_000, 10_000_000)})
     return {
         "level": "exploration",
         "rule": "one worker process parses each input (grammar-generated incl. extreme numbers / mutated / arbitrary / hostile "
                 "catalogue with 200-digit numbers, invalid UTF-8, truncated files, over-long varints and headers declaring "
                 "counts up to 2^64-1 / repository test literals; all parsers, literal types and configs; one-shot, 1-byte and "
-                "random schedules; all constructors) to its final result inside catch_unwind, in the chk build (overflow checks + debug "
+                "random schedules; all constructors; about one input in 30000 is a 2..6 MB document with one item of more than "
+                "2^20 entries - clause, value line, justice line, AIGER output section - followed by an empty and an ordinary "
+                "item; the streaming parsers are asked once more after they reported the end) to its final result inside catch_unwind, in the chk build (overflow checks + debug "
                 "assertions) and in the rel build. Violations: panic; process abort / signal / stack overflow (attributed via "
                 "the case journal); more than 20 CPU-seconds on one input (ITIMER_VIRTUAL); more items than input bytes + 1; "
                 "peak live heap above 64*delivered + 2 MiB (counting allocator; any single request above 1 GiB is refused). "
@@ -389,7 +400,7 @@ def plan_C07(tier, seed):
         fl["feature:dimacs:" + f] = 1000
     for f in ["comment_lines", "unknown_lines", "values_split_over_lines", "empty_value_line", "status_before_values",
               "status_between_values", "status_after_values", "crlf", "no_final_newline", "multi_blank_between_values",
-              "leading_zeros", "minus_zero_terminator", "lines_with_non_ascii_bytes"]:
+              "leading_zeros", "minus_zero_terminator", "lines_with_non_ascii_bytes", "near_miss_of_a_line_marker"]:
         fl["feature:log:" + f] = 300
     return {
         "level": "exploration",
@@ -423,6 +434,7 @@ def plan_C09(tier, seed):
                "docs_with_line_longer_than_chunk": 10_000, "refills": 1_000_000,
                "ctor:new": 50_000, "ctor:from_read": 20_000, "ctor:from_boxed_dyn_read": 20_000,
                "ctor:from_buf_reader_holding_first_line": 50_000, "ctor:new_on_advanced_reader": 20_000,
+               "runs_with_a_failing_source": 100_000, "io_errors_returned_then_asked_again": 30_000,
                "distinct_nontrivial": q(tier, 150_000, 3_000_000)})
     return {
         "level": "exploration",
@@ -436,7 +448,9 @@ def plan_C09(tier, seed):
                 "line completing the item (from the generator's token map). Oracle 2 (no token map): the data before the "
                 "previous line end followed by end of input must not already yield the identical item. Plus the reader-level "
                 "read discipline on random DeferredReader histories (one successful read per refill, none when satisfied, none "
-                "after end/error). A document is non-trivial if >= 2 items were returned over >= 3 lines; distinct by hash of "
+                "after end/error - the error kinds are drawn from 19, WouldBlock and TimedOut among them), and a third of the "
+                "documents once more from a source that fails at a line end or inside a line: after the parser returned the "
+                "I/O error and was asked again, the source's log must show no further call. A document is non-trivial if >= 2 items were returned over >= 3 lines; distinct by hash of "
                 "(bytes, parser config, chunk).",
         "jobs": jobs, "primary_jobs": ["lines-chk"], "eval_counters": ["items_observed"], "floors": fl,
         "assumptions": ["the AIGER comment section is 'the rest of the file' and is not a streamed item"],
@@ -486,7 +500,7 @@ def plan_C08(tier, seed):
     ]
     fl = dict(PARSER_FLOORS)
     fl.update({"parser:log": 100, "located_errors": q(tier, 1_000_000, 50_000_000), "errors_beyond_line_1": 300_000,
-               "corrupted_documents": q(tier, 600_000, 30_000_000),
+               "corrupted_documents": q(tier, 600_000, 30_000_000), "catalogue:justice sizes": 2000,
                "distinct_nontrivial": q(tier, 200_000, 5_000_000)})
     return {
         "level": "exploration",
@@ -499,7 +513,8 @@ def plan_C08(tier, seed):
                 "map is corrupted at exactly one token from the catalogue {garbage token in place of a number; number one above "
                 "its declared or hard limit; number beyond any machine integer; leading zero (AIGER/BTOR2); odd or zero "
                 "defining literal; separator replaced by tab or doubled; unknown BTOR2 keyword; invalid UTF-8 byte inside an "
-                "AIGER symbol name; binary delta larger than its reference} and parsed under the same four schedules, with "
+                "AIGER symbol name; binary delta larger than its reference; two consecutive AIGER justice sizes that each fit "
+                "usize while the running total does not (the error belongs to the second)} and parsed under the same four schedules, with "
                 "documents long enough that the error lies beyond 2*chunk (location bookkeeping across realigns): the reported "
                 "line must be the token's line and the column must lie on the replacement token. Non-trivial = located error "
                 "beyond line 1; distinct by hash of (bytes, parser config[, location]).",
